@@ -1076,6 +1076,19 @@ func (fv *funcVerifier) finishExits() {
 			}
 		}
 	}
+	if fv.opt.Canary && fv.spec != nil && len(fv.exits) > 1 {
+		// vacuity guard per return: a return that became unreachable under the assumed
+		// invariants/contracts would make every postcondition hold trivially on that path
+		for k, ex := range fv.exits {
+			if ex.dead() {
+				continue
+			}
+			o := fv.assertNoAssume(ex, "canary", fmt.Sprintf("return-reachable#%d", k+1), fv.fi.Decl.End(), smt.False)
+			if o != nil {
+				o.Canary = true
+			}
+		}
+	}
 	exit := fv.mergeAll(fv.exits[0], fv.exits[1:])
 	fv.exit = exit
 	if fv.opt.Canary {
